@@ -229,4 +229,74 @@ def removeSingle (t : T) : T := removeSingleBy fuseLenGo t
 
 def removeSinglePinned (t : T) : T := removeSingleBy fuseLenPinned t
 
+
+/- ## command-line glue (cmd/graft.go, cmd/merge.go, cmd/repopulate.go, cmd/subtree.go, cmd/collapsesingle.go)
+
+   What each command does with the result of the library call, as pure functions of the (already
+   read and indexed) input trees.  `none` = the command prints no tree. -/
+
+/-- `gotree graft -i host -c graft -l tip`: cmd/graft.go:67 calls `refTree.GraftTreeOnTip(tipname, graftTree)`
+    WITHOUT looking at the error: when the graft is refused (no such tip, the tip is the root) the host
+    is printed unchanged and the exit status is 0. -/
+def cliGraft (host : T) (tip : String) (g : T) : T :=
+  match graft true host tip g with
+  | .ok t => t
+  | .error _ => host
+
+/-- `gotree merge -i a -c b`: any refusal is an error exit, nothing is printed -/
+def cliMerge (a b : T) : Option T :=
+  match merge true true a b with
+  | .ok t => some t
+  | .error _ => none
+
+/-- `gotree repopulate -i t -g groups`: `UpdateTipIndex`, `InsertIdenticalTips`; a refusal is an error
+    exit and the tree is not printed -/
+def cliRepopulate (t : T) (groups : List (List String)) : Option T :=
+  match insertIdentical true t groups with
+  | (t', none) => some t'
+  | _ => none
+
+/-- `gotree collapse single` -/
+def cliCollapseSingle (t : T) : T := removeSingle t
+
+/- the nodes whose name is `name`, in `Nodes()` order, each with "is a tip" (`len(neigh) == 1`) -/
+mutual
+def namedBelow (name : String) : T → List (Bool × T)
+  | .node d p k => (if d.name == name then [(k.isEmpty, .node d p k)] else []) ++ namedBelowL name k
+def namedBelowL (name : String) : Kids → List (Bool × T)
+  | [] => []
+  | (_, t) :: r => namedBelow name t ++ namedBelowL name r
+end
+
+def nodesNamed (t : T) (name : String) : List (Bool × T) :=
+  (if t.name == name then [(t.kids.length == 1, t)] else []) ++ namedBelowL name t.kids
+
+/-- `gotree subtree -i t -n '^name$'`: exactly one node matches and it is not a tip → its subtree;
+    otherwise (no match, several matches, a tip) a message on stderr, nothing printed, exit 0 -/
+def cliSubtree (t : T) (name : String) : Option T :=
+  match nodesNamed t name with
+  | [(false, n)] => some (copyRecBy Gotree.Gen.C15.fields n)
+  | _ => none
+
+/- ## derived state: the tip index and the branch bitsets (UpdateTipIndex :457, ClearBitSets/UpdateBitSet/
+   fillRightBitSet :583–691).  `ReinitIndexes` (called by Merge, InsertIdenticalTips, SubTree; by the
+   parsers) sets both; `Clone` copies the bitsets (`CopyEdge`: `e.bitset.Clone()`) and rebuilds the
+   index (`UpdateTipIndex`); `GraftTreeOnTip` rebuilds the index only. -/
+
+def sortN (l : List String) : List String := l.mergeSort (fun a b => decide (a ≤ b))
+
+/-- `UpdateTipIndex`: the tips sorted by name; a tip's id is its position.  With a repeated name the
+    loop stops with an error at the second occurrence, the earlier ones stay in the map. -/
+def tipIndexFill : List String → List String → List String × Bool
+  | [], acc => (acc, true)
+  | a :: r, acc => if acc.contains a then (acc, false) else tipIndexFill r (acc ++ [a])
+
+def tipIndex (t : T) : List String × Bool := tipIndexFill (sortN t.tipNames) []
+
+/-- the bitset `fillRightBitSet` leaves on a branch: bit `i` set iff tip `i` of the index is below it -/
+def bitsetOf (idx below : List String) : List Bool := idx.map below.contains
+
+/-- the bitsets of all branches in `Edges()` order, after `ReinitIndexes` -/
+def bitsets (t : T) : List (List Bool) := t.splits.map fun s => bitsetOf (tipIndex t).1 s.below
+
 end Gotree.C15
